@@ -157,6 +157,7 @@ def expectedTypeDefs : List (String × String) := [
   ("TypeMemberName", "newPatternType2(NewRegexpTypeR(MemberNamePattern))"),
   ("TypeMemberNames", "newArrayType2(TypeMemberName)"),
   ("TypeAttributes", "NewHashType(TypeMemberName, DefaultNotUndefType(), nil)"),
+  ("TypeParameters", "NewHashType(TypeMemberName, DefaultNotUndefType(), nil)"),
   ("TypeEquality", "newVariantType2(TypeMemberName, TypeMemberNames)")]
 
 /-- decidable side condition: no member is listed twice (the original defect), every member is optional, the seven members an
@@ -167,6 +168,7 @@ def schemaOKb (s : Schema) : Bool :=
   s.members.all (·.optional) &&
   s.memberTy "name" == some .typeName &&
   s.memberTy "parent" == some .typeOrTypeName &&
+  s.memberTy "type_parameters" == some .parameters &&
   s.memberTy "attributes" == some .attributes &&
   s.memberTy "constants" == some .constants &&
   s.memberTy "equality" == some .equality &&
